@@ -92,12 +92,45 @@ EmitHttp(i) ==
               db |-> DbText(IF table = "http_request" THEN "http:request" ELSE "http:response", [k \in 1..Len(sigs) |-> PrintHttpSig(sigs[k])], g),
               sver |-> [k \in 1..Len(sigs) |-> sigs[k].ver], obs |-> HttpObsSeq]))
 
+\* ---- pairs: two signatures that differ in exactly ONE field (every field of the signature in turn, wildcard and concrete forms), in
+\* both orders, with observations that are instances of the one, of the other, and of neither: whatever the index is keyed on, it
+\* must not hide the entry a full scan selects
+B0 == [ver |-> "4", pclass |-> "0", olayout |-> L1, mss |-> 1460, ittl |-> TtlV(64), olen |-> 0, wsize |-> W("mss", 4), wscale |-> 7, quirks |-> <<"df", "id+">>]
+FieldVariants == <<[B0 EXCEPT !.ver = "6"], [B0 EXCEPT !.ver = "*"], [B0 EXCEPT !.ittl = TtlV(128)], [B0 EXCEPT !.olen = 4], [B0 EXCEPT !.mss = -1], [B0 EXCEPT !.mss = 1400],
+                   [B0 EXCEPT !.wsize = W("value", 8192)], [B0 EXCEPT !.wsize = W("mod", 1024)], [B0 EXCEPT !.wsize = WAny], [B0 EXCEPT !.wscale = -1], [B0 EXCEPT !.wscale = 14],
+                   [B0 EXCEPT !.olayout = L2], [B0 EXCEPT !.olayout = L3], [B0 EXCEPT !.olayout = <<>>], [B0 EXCEPT !.quirks = <<>>], [B0 EXCEPT !.quirks = <<"df">>],
+                   [B0 EXCEPT !.quirks = <<"id+", "df">>], [B0 EXCEPT !.pclass = "+"], [B0 EXCEPT !.pclass = "*"]>>
+InstOf(s) == [ver |-> IF s.ver = "*" THEN "6" ELSE s.ver, pclass |-> IF s.pclass = "*" THEN "+" ELSE s.pclass, olayout |-> s.olayout, mss |-> IF s.mss < 0 THEN 1337 ELSE s.mss,
+              ittl |-> TtlD(s.ittl.a - 7, 7), olen |-> s.olen, wsize |-> IF s.wsize.k = "any" THEN W("value", 999) ELSE s.wsize, wscale |-> IF s.wscale < 0 THEN 3 ELSE s.wscale, quirks |-> s.quirks]
+EmitPair(k) ==
+  LET a == B0  b == FieldVariants[((k - 1) \div 2) + 1]
+      sigs == IF k % 2 = 1 THEN <<a, b>> ELSE <<b, a>>
+      table == IF (k \div 2) % 2 = 0 THEN "tcp_request" ELSE "tcp_response"
+      obs == <<InstOf(a), InstOf(b), [InstOf(b) EXCEPT !.olen = 8], [InstOf(a) EXCEPT !.wscale = 9]>>
+  IN PrintT("REPLAY " \o ToJson([kind |-> "tcp", i |-> 1000000 + k, table |-> table, g |-> 0,
+              db |-> DbText(IF table = "tcp_request" THEN "tcp:request" ELSE "tcp:response", [j \in 1..2 |-> PrintTcpSig(sigs[j])], 0),
+              sver |-> [j \in 1..2 |-> sigs[j].ver], obs |-> obs]))
+HB0 == [ver |-> "1", horder |-> <<H("Host"), HO("Accept"), H("User-Agent")>>, habsent |-> <<H("Keep-Alive")>>, sw |-> "curl"]
+HFieldVariants == <<[HB0 EXCEPT !.ver = "0"], [HB0 EXCEPT !.ver = "*"], [HB0 EXCEPT !.horder = <<H("Host"), H("User-Agent")>>], [HB0 EXCEPT !.horder = <<H("User-Agent"), H("Host")>>],
+                    [HB0 EXCEPT !.habsent = <<>>], [HB0 EXCEPT !.habsent = <<H("Keep-Alive"), H("Accept-Charset")>>], [HB0 EXCEPT !.sw = ""], [HB0 EXCEPT !.sw = "Wget"]>>
+HInstOf(s, v) == [ver |-> IF s.ver = "*" THEN v ELSE s.ver, horder |-> [i \in 1..Len(s.horder) |-> H(s.horder[i].name)], habsent |-> <<>>, sw |-> IF s.sw = "" THEN "zz" ELSE s.sw \o "/8.0"]
+EmitHPair(k) ==
+  LET a == HB0  b == HFieldVariants[((k - 1) \div 2) + 1]
+      sigs == IF k % 2 = 1 THEN <<a, b>> ELSE <<b, a>>
+      table == IF (k \div 2) % 2 = 0 THEN "http_request" ELSE "http_response"
+      obs == <<HInstOf(a, "1"), HInstOf(b, "1"), HInstOf(b, "2"), HInstOf(b, "3"), HInstOf(a, "0")>>
+  IN PrintT("REPLAY " \o ToJson([kind |-> "http", i |-> 2000000 + k, table |-> table, g |-> 0,
+              db |-> DbText(IF table = "http_request" THEN "http:request" ELSE "http:response", [j \in 1..2 |-> PrintHttpSig(sigs[j])], 0),
+              sver |-> [j \in 1..2 |-> sigs[j].ver], obs |-> obs]))
+
 Mine(n, s) == {j \in 0..((n - 1 - Offset) \div Stride) : j % Shards = s}
 Init == shard \in 0..(Shards - 1) /\ phase = 0
 Next == phase = 0 /\ phase' = 1 /\ UNCHANGED shard
 Inv == phase = 1 =>
    /\ \A j \in Mine(NDb(NT), shard) : EmitTcp(j * Stride + Offset)
    /\ \A j \in 0..(NDb(NH) - 1) : (j % Shards = shard) => EmitHttp(j)
+   /\ \A k \in 1..(2 * Len(FieldVariants)) : (k % Shards = shard) => EmitPair(k)
+   /\ \A k \in 1..(2 * Len(HFieldVariants)) : (k % Shards = shard) => EmitHPair(k)
 ASSUME PrintT("STAT " \o ToJson([ntcp |-> NDb(NT), nhttp |-> NDb(NH), stride |-> Stride]))
 Spec == Init /\ [][Next]_vars
 =============================================================================
